@@ -287,6 +287,17 @@ fn run_c13(t: &[&str], out: &mut RunOut, line: &str) {
 }
 
 /// A 64-bit integer wrapper with 0 as the none value (second instantiation of PodOption).
+#[derive(serde::Serialize, serde::Deserialize, PartialEq, Debug)]
+struct FlatInner { key: PodOption<Address> }
+#[derive(serde::Serialize, serde::Deserialize, PartialEq, Debug)]
+struct FlatOuter { tag: u8, #[serde(flatten)] inner: FlatInner }
+#[derive(serde::Serialize, serde::Deserialize, PartialEq, Debug)]
+#[serde(tag = "kind")]
+enum Tagged { A { key: PodOption<Address> } }
+#[derive(serde::Serialize, serde::Deserialize, PartialEq, Debug)]
+#[serde(untagged)]
+enum Untagged { A { key: PodOption<Address> } }
+
 #[derive(Clone, Copy, Debug, PartialEq, Eq, borsh::BorshSerialize, borsh::BorshDeserialize, serde::Serialize, serde::Deserialize)]
 struct NzU64(u64);
 impl Nullable for NzU64 {
@@ -323,6 +334,20 @@ fn run_c14(t: &[&str], out: &mut RunOut, line: &str) {
             if borsh::from_slice::<PodOption<Address>>(&borsh_b).ok() != Some(po) { notes.push("borsh decoder does not read back what the encoder wrote"); }
             if serde_json::from_str::<PodOption<Address>>(&json).ok() != Some(po) { notes.push("serde decoder does not read back what the encoder wrote"); }
             if bytemuck::try_from_bytes::<PodOption<Address>>(&raw).ok() != Some(&po) { err = Some("byte cast".into()); }
+            // Serde deserialisers that buffer their input first (flatten, internally tagged and untagged enums) hand the
+            // value over through other visitor callbacks (a null arrives as `unit`): a valid option must come back from them too
+            {
+                let f = FlatOuter { tag: 7, inner: FlatInner { key: po } };
+                let ok_f = serde_json::to_string(&f).ok().and_then(|j| serde_json::from_str::<FlatOuter>(&j).ok()) == Some(f);
+                let g = Tagged::A { key: po };
+                let ok_g = serde_json::to_string(&g).ok().and_then(|j| serde_json::from_str::<Tagged>(&j).ok()) == Some(g);
+                let u = Untagged::A { key: po };
+                let ok_u = serde_json::to_string(&u).ok().and_then(|j| serde_json::from_str::<Untagged>(&j).ok()) == Some(u);
+                if !(ok_f && ok_g && ok_u) {
+                    if is_none_val { err = Some("a Serde deserialiser that buffers its input (flatten / tagged / untagged enum) rejects the null that Serde wrote for none".into()); }
+                    else { notes.push("a buffering Serde deserialiser does not read back some(v)"); }
+                }
+            }
             // TryFrom<Option>, TryFrom<COption>
             let o: Option<Address> = if t[1] == "some" { Some(a) } else { None };
             let co: COption<Address> = if t[1] == "some" { COption::Some(a) } else { COption::None };
